@@ -516,6 +516,8 @@ def term_sexp(t, ctr=None):
         return prim("vtrcog %s %s %s %s" % (f2b(t[1]), f2b(t[2]), gens(t[3]), f2b(t[4])))
     if k == "never":
         return prim("vtr %s %s" % (f2b(-1.0), f2b(0.0)))
+    if k == "EVL":
+        return prim("evallimits %s %s" % (gens(t[1]), gens(t[2])))
     if k in ("Or", "And"):
         a = term_sexp(t[1], ctr); b = term_sexp(t[2], ctr)
         if a is None or b is None:
@@ -619,8 +621,9 @@ SCALE = {"DE": (10, 1000), "DE2": (10, 1000), "NM": (200, 200), "Powell": (1000,
 def msg_kind(ret):
     if ret is None:
         return "none"
-    if ret.startswith("EvaluationLimits"):
-        return "lim"
+    if ret.startswith("EvaluationLimits with {'evaluations'"):
+        return "lim"        # the solver's own limits (Terminated l.688: evaluations first); the termination CONDITION of the
+                            # same name writes "{'generations': .., 'evaluations': ..}" and counts as a condition
     if ret.startswith("SolverInterrupt"):
         return "sig"
     return "cond"
